@@ -508,3 +508,30 @@ Proof.
   fold (classify_allF (plug c frag)) (classify_allF frag). rewrite (classify_allF_plug c frag Hc).
   apply (plug_local (cl_step q) (cl_emit q) (cl_step_shift q) (cl_emit_shift q)). now apply global_ctx_inert.
 Qed.
+
+(* ------------------------------------------------------------------ confinement of the de-duplication quirk *)
+(* with q_concat_dedup_by_name on, the rule reports the candidate list of the code's own traversal (walkc) with
+   later candidates of an already seen variable name removed: it removes nothing, i.e. the quirk is invisible, on
+   every file in which no two candidates share a variable name *)
+Definition raw_candidates (q : cquirks) (file : list ast) : list rep :=
+  flat_map (walkc q (sets0 q file) None []) file.
+
+Lemma nodup_name_id l : forall seen,
+  NoDup (map snd l) -> (forall r, In r l -> smem (snd r) seen = false) -> nodup_name seen l = l.
+Proof.
+  induction l as [|r rs IH]; intros seen Hn Hs; [reflexivity|].
+  cbn [nodup_name]. rewrite (Hs r (or_introl eq_refl)). f_equal.
+  cbn [map] in Hn. inversion Hn as [|x xs Hx Hxs]; subst.
+  apply IH; [exact Hxs|]. intros r' Hr'. cbn [smem].
+  destruct (String.eqb_spec (snd r') (snd r)) as [E|N].
+  - exfalso. apply Hx. rewrite <- E. now apply in_map.
+  - apply Hs. now right.
+Qed.
+
+Theorem concat_dedup_partial q file :
+  q_concat_dedup_by_name q = true -> NoDup (map snd (raw_candidates q file)) ->
+  concat_reports q file = raw_candidates q file.
+Proof.
+  intros Hd Hn. unfold concat_reports. rewrite Hd. fold (raw_candidates q file).
+  apply nodup_name_id; [exact Hn|]. intros r _. reflexivity.
+Qed.
